@@ -280,4 +280,7 @@ func TestC05(t *testing.T) {
 	forCases(n, 51, "s", func(i int, r *rng, id string) {
 		bubble(t, "C05", id, func() { c05Heal(r, id) })
 	})
+	// the anti-entropy interval scaling (pushPullScale) against its integer model
+	forCases(6, 53, "sc", func(i int, r *rng, id string) { scaleLeg("C05", "pushpull", r, id, 60) })
+	forCases(1, 54, "sp", func(i int, r *rng, id string) { scalePoints("C05", "pushpull", id) })
 }
